@@ -210,7 +210,7 @@ class Interp:
             "None": None, "True": True, "False": False, "ValueError": "ValueError",
             "KeyError": "KeyError", "RuntimeError": "RuntimeError", "TypeError": "TypeError",
             "IndexError": "IndexError", "__name__": "mod", "reversed": lambda x: list(reversed(x)),
-            "sorted": sorted, "map": lambda f, *xs: [I.call(f, list(a), {}) for a in zip(*xs)],
+            "sorted": I.b_sorted, "map": lambda f, *xs: [I.call(f, list(a), {}) for a in zip(*xs)],
         }
 
     # ------------------------------------------------------------------ builtins
@@ -221,7 +221,7 @@ class Interp:
             return x.slen()
         if isinstance(x, SRange):
             return x.length
-        if isinstance(x, LabelSet):
+        if isinstance(x, (LabelSet, SortedLabels)):
             return x.slen()
         if isinstance(x, Obj):
             return self.call_method(x, "__len__", [], {})
@@ -419,6 +419,13 @@ class Interp:
         if isinstance(xs, (Arr, SList)):
             return LabelSet(xs)
         return set(xs)
+
+    def b_sorted(self, xs, **kw):
+        if isinstance(xs, LabelSet):
+            return SortedLabels(xs)
+        if isinstance(xs, (SList, Arr, SRange)):
+            raise Unsupported("sorted() of a symbolic sequence")
+        return sorted(xs, **kw)
 
     def b_any(self, xs):
         if isinstance(xs, Arr):
@@ -1253,7 +1260,7 @@ class Interp:
             new = base.setitem(k, v)
             self.inplace_sites.append(self.loc)
             self.writes.append((self.loc, base.origin, "store"))
-            self.rebind(t.value, new, env)
+            base.assign_from(new)        # the array object itself changes: every alias sees it
             return
         if hasattr(base, "setitem"):
             base.setitem(k, v)
@@ -1327,8 +1334,9 @@ class Interp:
             if isinstance(cur, Arr):
                 self.inplace_sites.append(self.loc)
                 self.writes.append((self.loc, cur.origin, "augassign"))
-                if isinstance(new, Arr):
-                    new.origin = cur.origin      # numpy updates the left operand in place
+                if isinstance(new, Arr) and new.ndim == cur.ndim:
+                    cur.assign_from(new)         # numpy updates the left operand in place (aliases included)
+                    return
             if isinstance(cur, list) and isinstance(new, list):
                 cur[:] = new
                 return
@@ -1341,8 +1349,9 @@ class Interp:
             if isinstance(cur, Arr):
                 self.inplace_sites.append(self.loc)
                 self.writes.append((self.loc, cur.origin, "augassign"))
-                if isinstance(new, Arr):
-                    new.origin = cur.origin
+                if isinstance(new, Arr) and new.ndim == cur.ndim:
+                    cur.assign_from(new)
+                    new = cur
             # python: o.attr = o.attr.__iop__(v)  -- the attribute is always re-assigned
             self.setattr(o, t.attr, new)
         elif isinstance(t, ast.Subscript):
@@ -1354,7 +1363,7 @@ class Interp:
             if isinstance(base, Arr):
                 self.inplace_sites.append(self.loc)
                 self.writes.append((self.loc, base.origin, "augstore"))
-                self.rebind(t.value, base.setitem(k, new), env)
+                base.assign_from(base.setitem(k, new))
             elif isinstance(base, (list, dict)):
                 if isinstance(k, Poly):
                     k = k.as_int()
@@ -1384,6 +1393,21 @@ def k_init_model(X, n_clusters, init="k-means||", random_state=None, max_iter=No
     return Arr((P(n_clusters), X.shape[-1]), lambda k, d: T.app("@kinit", k, d), "real", "numpy", origin={"@kinit"})
 
 
+def lookup(I, qualname):
+    """FuncVal of a function / method of the repository by qualified name, e.g. gmm.GMMMachine.fit"""
+    parts = qualname.split(".")
+    mod = I.modules[parts[0]]
+    v = mod.globals[parts[1]]
+    for p in parts[2:]:
+        ci = v
+        r = ci.find("methods", p, I.classes) or ci.find("getters", p, I.classes) or ci.find("setters", p, I.classes)
+        if r is None:
+            raise KeyError(qualname)
+        fd, owner = r
+        v = FuncVal(fd, owner.module, owner)
+    return v
+
+
 class LabelSet:
     """set(y) for a symbolic label vector: K distinct labels enumerated in an
     unspecified order pi(0..K-1)  (uninterpreted, injective)"""
@@ -1400,6 +1424,21 @@ class LabelSet:
 
     def as_slist(self):
         return SList(self.K, lambda k: T.app(self.tag, k, sort="int"))
+
+
+class SortedLabels:
+    """sorted(set(y)): the same K labels enumerated in ascending order -- in general a DIFFERENT
+    enumeration than the set's own iteration order"""
+
+    def __init__(self, ls):
+        self.ls = ls
+        self.K = ls.K
+
+    def slen(self):
+        return self.K
+
+    def as_slist(self):
+        return SList(self.K, lambda k: T.app("sorted:" + self.ls.tag, k, sort="int"))
 
 
 class SymIndexed:
@@ -1499,7 +1538,10 @@ class LinalgModel:
 
     def inv(self, m):
         N.used("linalg.inv")
-        return N.minv(N.lift(m))
+        m = N.lift(m)
+        if not isinstance(m, Arr) or m.ndim < 2:
+            raise PyRaise("ValueError", "expected square matrix")
+        return N.minv(m)
 
     def pinv(self, m):
         N.used("scipy.linalg.pinv")
@@ -1510,8 +1552,9 @@ class LinalgModel:
         N.used("linalg.cholesky")
         m = N.lift(m)
         n = m.shape[-1]
-        vi, vj = T.fresh("mi"), T.fresh("mj")
-        lam = T.close_raw("lam", vi, None, T.close_raw("lam", vj, None, P(m.fn(vi, vj))))
+        vi, vj = T.bounded_var(n, "mi"), T.bounded_var(n, "mj")
+        body = P(m.fn(ZERO, ZERO)) if P(n).as_int() == 1 else P(m.fn(vi, vj))
+        lam = T.close_raw("lam", vi, None, T.close_raw("lam", vj, None, body))
         tag = "chol_lower" if lower else "chol_upper"
         return Arr(m.shape, lambda i, j: T.app(tag, n, lam, i, j), "real", m.kind)
 
